@@ -288,6 +288,54 @@ def same_text_two_ids_case(r, acc, origin):
                            'outputs': {}, 'origin': origin})
 
 
+def shared_definition_grammar(r, ledger):
+    """One definition (literals, a command, a word) referenced from several `||` branches of different index and
+    from outside any `||`: every reference must carry the level of its own branch."""
+    from ..gast import lit, nt, seq, alt, fb, opt, many, call, defn, cmd
+    names = ['p', 'q', 'r1', 'go']
+    body_items = [lit(r.choice(names) + str(i)) for i in range(r.randint(1, 3))]
+    if r.random() < 0.4:
+        body_items.append(cmd(ledger.factory(r, 0)))
+    if r.random() < 0.4:
+        body_items.append(('word', (lit('v='), alt(lit('on'), lit('off')))))
+    if r.random() < 0.4:
+        body_items.append(seq(lit('two'), lit('words')))
+    defs = [defn('SH', None, alt(*body_items))]
+    ref = nt('SH')
+    if r.random() < 0.4:
+        defs = [defn('SH', None, alt(nt('SH2'), lit('extra'))), defn('SH2', None, alt(*body_items))]
+
+    nb = r.randint(2, 4)
+    at_start = r.randrange(nb) if r.random() < 0.8 else None     # at most one branch begins with the definition
+
+    def branch(i):
+        own = lit('%s%d' % (r.choice(['z', 'w', 'm']), i))
+        if i == at_start:
+            return ref if r.random() < 0.5 else alt(own, ref)
+        k = r.random()
+        if k < 0.35:
+            return alt(own, seq(lit('n%d' % i), ref))
+        if k < 0.6:
+            return seq(lit('n%d' % i), ref)
+        if k < 0.8:
+            return seq(own, opt(ref))
+        return own
+    branches = [branch(i) for i in range(nb)]
+    e = fb(*branches)
+    k = r.random()
+    if k < 0.3:
+        e = seq(e, lit('tail'))
+    elif k < 0.5:
+        e = seq(lit('head'), e, opt(ref))
+    elif k < 0.65:
+        e = many(e)
+    stmts = [call('cmd', e)] + defs
+    if r.random() < 0.4:
+        stmts.insert(1, call('cmd', seq(lit('plain'), ref, lit('after'))))
+    r.shuffle(stmts)
+    return stmts
+
+
 def make_jobs(tier, seed):
     n = 64 if tier == 'quick' else 420
     return [('rand', seed * 1000003 + i, 1, 32 if tier == 'quick' else 40) for i in range(n)]
@@ -298,6 +346,12 @@ def run_job(job, acc):
     r = random.Random(s)
     if s % 16 == 0:
         same_text_two_ids_case(r, acc, 'same-text-two-descriptions seed=%d' % s)
+    if s % 4 == 1:
+        for i in range(2):
+            ledger = CmdLedger()
+            stmts = shared_definition_grammar(r, ledger)
+            acc.count('shared_definition_grammars')
+            check_grammar(stmts, ledger, r, budget // 2, acc, 'definition shared by || branches seed=%d #%d' % (s, i))
     for i in range(count):
         ledger = CmdLedger()
         stmts = profile_grammar(r, ledger)
